@@ -388,6 +388,44 @@ CHECKS = {
         "level_note": "trusted: the tonic client generated from the repository's proto",
         "technique": "runtime monitoring: structured request fuzzing with answer/liveness monitor + census differential on the real binary",
     },
+    "C17": {
+        "level": "exploration",
+        "rule": "the same seeded workload (harness/src/c17.rs) is executed under four memory-safety oracles, one per build: (native) dev-profile build "
+                "with debug assertions => std ub_checks on get_unchecked/from_raw_parts/ptr::add preconditions + overflow checks, kernels on slices that "
+                "border PROT_NONE guard pages; (asan) nightly -Zsanitizer=address; (miri) the Miri interpreter with all x86 kernel families enabled "
+                "(UB, uninitialised reads, data races); (valgrind, thorough) memcheck on the release build. Legs: kernels = every family (scalar, SSE2, "
+                "AVX2, AVX-512) x every length 0..=130 x 16 (Miri 3) element offsets, slices ending exactly at the end of their allocation, values "
+                "compared with an f64 reference; index = HnswVectorIndex sequences over dimension 1..130 (biased to SIMD-width neighbours), M 4..64, "
+                "capacity 1..4096, ef_construction 1..400, three metrics, duplicate vectors and ids, id 0 / 2^64-1, single and batch insertion below "
+                "and above the parallel threshold, to capacity and beyond, k 1..10 001, ef 1..usize::MAX, cancellation flag preset or flipped by "
+                "another thread while 2-4 readers share the index; backend = persistence-free HnswBackend with one writer (insert/delete/batch "
+                "delete) and concurrent readers. In the index/backend legs the runtime kernel dispatch is forced per shard (hook H1) so that every "
+                "family carries the index traffic. distinct_nontrivial = distinct (tool, dimension, M, capacity, size) shapes and (family, length) pairs",
+        "legs": [
+            {"name": "kernels-native", "bin": "sanwrap", "argv": ["c17", "--leg", "kernels", "--mode", "native"], "needs": ["vh"], "shards": 4},
+            {"name": "index-native", "bin": "sanwrap", "argv": ["c17", "--leg", "index", "--mode", "native"], "needs": ["vh"], "shards": 16, "timeout_q": 1800},
+            {"name": "backend-native", "bin": "sanwrap", "argv": ["c17", "--leg", "backend", "--mode", "native"], "needs": ["vh"], "shards": 16},
+            {"name": "kernels-asan", "bin": "sanwrap", "argv": ["c17", "--leg", "kernels", "--mode", "asan"], "needs": ["vh-asan"], "shards": 4},
+            {"name": "index-asan", "bin": "sanwrap", "argv": ["c17", "--leg", "index", "--mode", "asan"], "needs": ["vh-asan"], "shards": 16, "timeout_q": 1800},
+            {"name": "backend-asan", "bin": "sanwrap", "argv": ["c17", "--leg", "backend", "--mode", "asan"], "needs": ["vh-asan"], "shards": 16},
+            {"name": "kernels-miri", "bin": "sanwrap", "argv": ["c17", "--leg", "kernels", "--mode", "miri"], "needs": ["vh-miri"], "shards": 16, "timeout_q": 1800},
+            {"name": "index-miri", "bin": "sanwrap", "argv": ["c17", "--leg", "index", "--mode", "miri"], "needs": ["vh-miri"], "shards": 16, "timeout_q": 2400, "timeout_t": 14400},
+            {"name": "backend-miri", "bin": "sanwrap", "argv": ["c17", "--leg", "backend", "--mode", "miri"], "needs": ["vh-miri"], "shards": 16, "timeout_q": 2400, "timeout_t": 14400},
+            {"name": "kernels-valgrind", "bin": "sanwrap", "argv": ["c17", "--leg", "kernels", "--mode", "valgrind"], "needs": ["vh-release"], "shards": 8, "thorough_only": True},
+            {"name": "index-valgrind", "bin": "sanwrap", "argv": ["c17", "--leg", "index", "--mode", "valgrind"], "needs": ["vh-release"], "shards": 16, "thorough_only": True},
+            {"name": "backend-valgrind", "bin": "sanwrap", "argv": ["c17", "--leg", "backend", "--mode", "valgrind"], "needs": ["vh-release"], "shards": 16, "thorough_only": True},
+        ],
+        "assumptions": ["the harness links the real kyrodb-engine built from /repo's working tree with feature verif-hooks",
+                        "a clean sanitizer run is not memory safety: accesses inside one allocation (the packed level-0 Vec) are invisible to ASan/"
+                        "memcheck and are covered only by ub_checks (index < len) and Miri (uninitialised capacity)",
+                        "Miri runs a scaled-down workload (<= 24 nodes, capacity <= 130); valgrind 3.19 does not emulate AVX-512",
+                        "verdicts hold only for the executions observed in this run"],
+        "min_evaluations": 64,
+        "level_text": "sanitizers: the same seeded index/kernel workload under std ub_checks + guard pages, AddressSanitizer, Miri and valgrind "
+                      "memcheck with each SIMD kernel family forced in turn; exploration",
+        "level_note": "trusted: the tools themselves; first engine frame of a report is used as the finding signature",
+        "technique": "sanitizers and UB interpreter: Miri, AddressSanitizer, std ub_checks/debug assertions, valgrind memcheck, guard pages",
+    },
     "C14": {
         "level": "exploration",
         "rule": "one case = real kyrodb_server (production profile on loopback, auth on, tenant 'alpha' with max_vectors in 2..8, a second tenant using "
